@@ -81,7 +81,14 @@ def replayToks (s : S) (k depth : Nat) : Toks → Except (Nat × String) S
       | none => .error (k, "unknown:" ++ t)
       | some a => match step s a with
         | some s' => replayToks s' (k + 1) (if t == "aBegin" || t == "aNest" then depth + 1 else depth) rest
-        | none => .error (k, t)
+        | none =>
+          -- a handler that interrupts a call which has already done its last modelled action (it found the teardown
+          -- lock taken / no executor and is on its way out): for the model that call has returned, this one begins
+          if t == "aNest" && s.aPc == 0 then
+            match step s .aBegin with
+            | some s' => replayToks s' (k + 1) (depth + 1) rest
+            | none => .error (k, t)
+          else .error (k, t)
 
 /-- positions (in the merged stream) at which an abort call returned, with "it took the forced path" -/
 def returns : Toks → List Bool → Nat → List (Nat × Bool)
